@@ -401,6 +401,35 @@ def setOnPath : Val → Path → Bool
 def researchOf (q : Path → Key → Val → Bool) (log : List (Path × Key × Val)) : List (Path × Val) :=
   (log.filter fun e => q e.1 e.2.1 e.2.2).map fun e => (e.1 ++ [e.2.1], e.2.2)
 
+/-- `research`'s `_enter` wrapper run over the sequence of `enter` calls `remap` makes: the query is
+    evaluated on each call, in order; a truthy answer appends `(path + (key,), value)` to the result;
+    a raising query (`none`) fails the whole call when `reraise` is set (`none`) and is skipped
+    otherwise.  Generic in the value type (tree values / heap objects). -/
+def researchRun {α : Type} (q : Path → Key → α → Option Bool) (reraise : Bool) :
+    List (Path × Key × α) → Option (List (Path × α))
+  | [] => some []
+  | (p, k, v) :: r =>
+    match q p k v with
+    | none => if reraise then none else researchRun q reraise r
+    | some false => researchRun q reraise r
+    | some true => (researchRun q reraise r).map fun l => (p ++ [k], v) :: l
+
+/-- the `enter` calls `research` hands to the query: the ones for the items nested in the root,
+    preceded - when `rootQ` is set - by the call for the root itself (`path=()`, `key=None`).  The
+    property speaks about nested items only: whether the root itself is queried / reported (under the
+    meaningless path `(None,)`) is a convention of the code, read off the implementation by a probe
+    on every run and handed to the model as `rootQ`; every theorem holds for both values. -/
+def researchCalls (rootQ : Bool) (root : Val) : List (Path × Key × Val) :=
+  (if rootQ then [([], Atom.none, root)] else []) ++ nestedLog root
+
+/-- `research(root, query, reraise)` on a tree value; `none` = the query raised and was re-raised -/
+def research (rootQ : Bool) (q : Path → Key → Val → Option Bool) (reraise : Bool) (root : Val) :
+    Option (List (Path × Val)) :=
+  researchRun q reraise (researchCalls rootQ root)
+
+/-- `get_path(root, path, default)`: the default replaces the `PathAccessError` -/
+def getPathD (root : Val) (path : Path) (dflt : Val) : Val := (getPath root path).getD dflt
+
 /-! ### the visitor family on trees -/
 def keepVisit : VisitFn Val := fun _ _ _ => .keep
 
@@ -598,6 +627,17 @@ def enterLog : List Ev → List (Path × Key × Obj)
   | [] => []
   | .enter p k o _ :: r => (p, k, o) :: enterLog r
   | _ :: r => enterLog r
+
+/-- the `enter` calls `research` hands to the query on a heap (cf. `researchCalls`): `remap`'s first
+    `enter` call is the root's own -/
+def hresearchCalls (rootQ : Bool) (tr : List Ev) : List (Path × Key × Obj) :=
+  (if rootQ then (enterLog tr).take 1 else []) ++ (enterLog tr).drop 1
+
+/-- `research(root, query, reraise)` on a heap: `remap(root, enter=_enter)` with the default visit,
+    the query evaluated on the `enter` calls; `none` = the query raised and was re-raised -/
+def hresearch (rootQ : Bool) (q : Path → Key → Obj → Option Bool) (reraise : Bool) (h : Heap) (root : Obj) :
+    Option (List (Path × Obj)) :=
+  researchRun q reraise (hresearchCalls rootQ (hfinal ⟨hkeepVisit, true⟩ h root).trace)
 
 /-! ### the memoised bottom-up recursion (heap-level specification) -/
 
